@@ -1,2 +1,3 @@
 -- Every property theorem file (built by setup.sh; each check builds only its own).
 import ReuseVerif.Theorems.C12
+import ReuseVerif.Theorems.C05
